@@ -8,7 +8,7 @@ OBL = []
 
 MODPATH = {
     "ast.rs": "ast", "ast__sim.rs": "ast::sim", "asm.rs": "asm", "asm__encoding.rs": "asm::encoding", "err.rs": "err",
-    "parse.rs": "parse", "sim.rs": "sim", "sim__mem.rs": "sim::mem", "sim__frame.rs": "sim::frame", "sim__device.rs": "sim::device",
+    "parse.rs": "parse", "parse__lex.rs": "parse::lex", "sim.rs": "sim", "sim__mem.rs": "sim::mem", "sim__frame.rs": "sim::frame", "sim__device.rs": "sim::device",
     "sim__device__timer.rs": "sim::device::timer", "sim__device__keyboard.rs": "sim::device::keyboard", "sim__device__display.rs": "sim::device::display", "sim__debug.rs": "sim::debug", "sim__observer.rs": "sim::observer",
 }
 
@@ -81,9 +81,9 @@ K("K.device.null", "sim__device.rs", "null_device_contract", ["C32"], ["NullDevi
 K("K.device.new_wf", "sim__device.rs", "new_handler_wf", ["C32"], ["DeviceHandler::new"], group="dev")
 for h, b in (("add_device_0_ports", "3 devices, 0 ports"), ("add_device_1_port_3", "3 devices, 1 port"), ("add_device_1_port_4", "4 devices, 1 port"), ("add_device_2_ports", "3 devices, 2 ports")):
     K(f"K.device.{h}", "sim__device.rs", h, ["C32"], ["DeviceHandler::add_device", "DeviceHandler::get_dev_id"], kind="bounded", bound=b + "; port table fully symbolic", group="dev")
-for h, b in (("remove_device_a", "ports xFE10 and xFFFF"), ("remove_device_b", "ports xFE00 (KBSR) and xFE06 (DDR)")):
+for h, b in (("remove_device_3", "removed id 3"), ("remove_device_4", "removed id 4"), ("remove_device_kbd", "removed id 1 (keyboard)"), ("remove_device_null", "removed id 0"), ("remove_device_absent", "removed id 9 (no such device)")):
     K(f"K.device.{h}", "sim__device.rs", h, ["C32"], ["DeviceHandler::remove_device"], kind="bounded",
-      bound="<= 5 devices; arbitrary owners at " + b + ", unowned elsewhere; removed id symbolic", group="dev", timeout=1200)
+      bound="<= 5 devices; arbitrary owners at two concrete ports, unowned elsewhere; " + b, group="dev", timeout=1200)
 K("K.device.set_kbd_display", "sim__device.rs", "set_keyboard_display_contract", ["C32"], ["DeviceHandler::set_keyboard", "DeviceHandler::set_display"], group="dev")
 K("K.device.interrupt_leaf", "sim__device.rs", "interrupt_leaf", ["C10", "C34"], ["Interrupt::vectored", "Interrupt::priority"], group="dev", replay="native")
 K("K.device.poll_arbitration_3", "sim__device.rs", "poll_arbitration_3", ["C10"], ["DeviceHandler::poll_interrupt"], kind="bounded", bound="3 device slots", stubs=[SLOT], group="dev")
@@ -162,6 +162,13 @@ for h, fn in (("convert_imm5", "Offset<i16,5>"), ("convert_offset6", "Offset<i16
     K(f"K.parse.{h}", "parse.rs", h, ["C05"], [f"<{fn} as TokenParse>::match_", f"<{fn} as TokenParse>::convert"], stubs=[FMT], group="parse")
 K("K.parse.int_literal", "parse.rs", "int_literal_either_sign", ["C05"], ["<IntLiteral as TokenParse>::match_"], stubs=[FMT], group="parse")
 K("K.parse.reg_token", "parse.rs", "reg_token_match", ["C05"], ["<Reg as TokenParse>::match_"], stubs=["alloc::fmt::format=returns an empty string (message text is not part of the contract)"], group="parse")
+
+for h, fn, b in [(f"lex_reg_{d}", "lex_reg", f"R/r followed by {d} digits") for d in (1, 2, 3, 4)] + \
+                [(f"lex_udec_{d}", "lex_unsigned_dec", f"optional # and {d} decimal digits") for d in (1, 3, 5, 6)] + \
+                [(f"lex_sdec_{d}", "lex_signed_dec", f"optional #, minus sign and {d} decimal digits") for d in (1, 5)] + \
+                [(f"lex_uhex_{d}", "lex_unsigned_hex", f"X/x and {d} hex digits (either case)") for d in (1, 4, 5)] + \
+                [("lex_shex_4", "lex_signed_hex", "X/x, minus sign and 4 hex digits")]:
+    K(f"K.lex.{h}", "parse__lex.rs", h, ["C05"], [fn, "convert_int_error"], kind="bounded", bound=b + "; validator called directly under its token regex's precondition (DFA not executed)", group="lex", timeout=900)
 
 # ------------------------------------------------------------------------------------------------ asm.rs
 UP = "str::to_uppercase=panics (label arm must be unreachable when all operands are numeric: a checked claim)"
